@@ -34,7 +34,12 @@ func effB(b int) int {
 func SizeSet(b int, big bool) []int {
 	B := effB(b)
 	m := map[int]bool{}
-	for _, v := range []int{0, 1, 2, B - 1, B, B + 1, 2*B - 1, 2 * B, 2*B + 1, 2 * (B + 14), 2*(B+14) + 1, 3*B + 1, 124, 125, 126, 127} {
+	// boundaries relative to the payload capacity B and to the real buffer length B+14 (header
+	// room included); for sizes above the direct-write threshold one representative per residue
+	// zone modulo the buffer length: 0, inside the payload capacity, inside the header room
+	L := B + 14
+	for _, v := range []int{0, 1, 2, B - 1, B, B + 1, 2*B - 1, 2 * B, 2*B + 1, 2 * L, 2*L + 1, 3*B + 1, 124, 125, 126, 127,
+		L - 1, L, L + 1, 3 * L, 3*L - 1, 3*L - 7, 2*L + B} {
 		if v >= 0 {
 			m[v] = true
 		}
@@ -262,6 +267,7 @@ type WEnv struct {
 	Name    string
 	Failed  bool // an API call failed (fault injection); later expectations are void
 	CurKind string
+	Quick   bool
 	Between func(pos string) // extra hook between the calls of a message program
 	CtlDL   time.Time        // deadline argument used for WriteControl
 	curCall int
